@@ -125,6 +125,8 @@ MUTANTS = [
     M("i2-flag-never-set", ["C16"], ["I2"], (AK + "volume.py", "        self._is_files_realized = True\n\n        \n    @property", "        \n    @property")),
     M("r1-no-rewind", ["C16", "C01"], ["R1"], (TR, "    for data_stream in data_streams:\n        data_stream.stream.seek(0, SEEK_SET)\n", "")),
     M("o1-no-dedupe", ["C02"], ["O1"], (RO + "volume_entry.py", "        volume_performance_ptrs = np.unique(volume_performance_ptrs)\n", "")),
+    M("i4-sectorread-escapes", ["C14", "C15"], ["I4"], (AK + "file.py", "                SectorReadError, \n                struct.error\n", "                struct.error\n")),
+    M("i4-beyond-chain-indexerror", ["C14"], ["I4"], (U + "fat.py", "        try:\n            sector  = self.sector_list[sector_index]\n        except IndexError as e:\n            raise SectorReadError(\n                f\"Sector {sector_index} lies beyond the \"\n                f\"{len(self.sector_list)} sectors of the file.\"\n            ) from e\n", "        sector  = self.sector_list[sector_index]\n")),
     # ---------------------------------------------------------------- filters
     M("f3-no-reset", ["C19"], ["F3"], ("smpl_extract/filters/fir.pyx", "        y = self.convolve_valid(x_full, self.h).astype(dtype)\n        self.reset_state()\n", "        y = self.convolve_valid(x_full, self.h).astype(dtype)\n")),
     M("f4-no-upper-bound", ["C19"], ["F4"], ("smpl_extract/filters/fir.pyx", "    if x > 32767.0:\n        result = 32767\n        return result\n", "")),
